@@ -13,6 +13,7 @@ cursor results equal navigation in the reference order (cursors are anchored pos
 """
 import bisect
 import copy
+import gc
 import glob
 import json
 import os
@@ -21,6 +22,11 @@ import signal
 import dns.btree as btree
 
 from harness.core import Ctx, VERIF
+try:
+    from harness.core import Stalled
+except ImportError:  # older core
+    class Stalled(BaseException):
+        pass
 
 RULE = (
     "histories are generated from one SplitMix64 state: t in {3,4,5}, in-order optimisation on/off, dict or set API, "
@@ -31,6 +37,8 @@ RULE = (
     "every public spelling of an operation chosen deterministically per op (d[k]=v / insert_element with and without the in_order argument, del / discard / delete_key / pop / popitem, seek with and without `before`, copy.copy / original=), "
     "falsy keys and falsy dict values (0, None), keys of type int / str / Name / bytes / tuple / float, Element subclasses whose truth value is False, clones made with a different `t=` argument, "
     "an oracle-only stream (no model line): key comparisons that raise (a BaseException, a ValueError or a KeyError subclass) after n comparisons in the middle of an insertion or deletion, then continued use of the trees; "
+    "object lifetime: chains of frozen generations whose intermediate tree is dropped (`Z`: last reference deleted + gc.collect(); observed afterwards only through the strings and digests already taken) "
+    "while trees sharing its nodes stay observed, followed by short-lived clones that can be allocated at the freed address; "
     "a tree combined with itself (s |= s, s &= s, s ^= s, s -= s, d.update(d), clear()); ==, !=, <=, >=, <, isdisjoint and the binary set operators against plain set/dict and across clones, plus a malformed stream (bad handles, clone "
     "of a mutable tree, delete_exact of foreign elements, use of closed cursors, mutation of frozen trees); a case is "
     "non-trivial if it performs at least one mutation and its key (parameters + op list) is new"
@@ -48,6 +56,9 @@ ASSUMPTIONS = [
     "the per-operation simulation lemmas hold for both variants",
     "cursors that are not registered with their tree (no `with` block) and are used across a mutation are undefined "
     "behaviour by the library's documentation and are not exercised",
+    "creator freshness: Model.BTreeCow.newTree / cloneTree hand out a token (a counter) that no cell of the heap carries, also after "
+    "handles have been forgotten; the harness checks exactly this on the implementation (C19/cow/creator-not-fresh: the token of every new tree "
+    "differs, under `is` and `==`, from the token of every tree ever made in the history, dropped ones included, and from the creator of every node seen)",
     "keys are natural numbers (any totally ordered key type behaves the same; the code uses only ==, <, >)",
     "exceptions raised by a key's comparison methods in the middle of an operation are outside the property's text; the oracle-only stream "
     "still demands that every other tree is unchanged, that the tree stays a B-tree with a non-empty internal root, and that an aborted "
@@ -340,6 +351,8 @@ class Runner:
         self.emptied_by_failed_exact = {}  # tree -> its root was left empty by a delete_exact that raised ValueError
         self._cow = None
         self.height_before = 0
+        self.last_digs = []
+        self.tokens_made = []  # the creator token of every tree ever made in this history (the tokens, not the trees)
         self.in_order_of = []  # the in_order argument each tree was made with
         self.curs = []  # (tree index, cursor, refcursor, open)
         self.objs = {}
@@ -369,6 +382,24 @@ class Runner:
             return c
         return cls(original=original, in_order=io)
 
+    def note_creator(self, tr, at):
+        """The assumption of the copy-on-write refinement (Model.BTreeCow.newTree / cloneTree take a token that no cell
+        carries), checked on the implementation: the token of a new tree is distinct — under `is` and under `==`, whichever
+        the code compares with — from the token of every tree made before in this history (also of trees that have been
+        dropped since) and from the creator of every node seen so far."""
+        c = tr.creator
+        for j, old in enumerate(self.tokens_made):
+            if old is c or old == c:
+                self.fail("C19/cow/creator-not-fresh", f"op {at}: the creator token of the new tree #{len(self.tokens_made)} ({type(c).__name__}) equals the token of tree #{j}"
+                          + (" (dropped)" if j < len(self.trees) and self.trees[j] is None else ""), at)
+                break
+        else:
+            for n in self.keep:
+                if n.creator is c or n.creator == c:
+                    self.fail("C19/cow/creator-not-fresh", f"op {at}: the creator token of the new tree equals the creator of node #{self.serial.get(id(n))}", at)
+                    break
+        self.tokens_made.append(c)
+
     def make_elt(self, k, v):
         e = self.objs.get((k, v))
         if e is None:
@@ -385,7 +416,7 @@ class Runner:
         """re-read every live tree from its real nodes; isolation: only `mutated` may differ from the last reading"""
         out = []
         for j, tr in enumerate(self.trees):
-            out.append(tree_line(tr))
+            out.append(self.lines[j] if tr is None else tree_line(tr))  # a dropped tree: its last reading (a plain string)
         return out
 
     # ---- mechanism level: node identities and creator tokens ------------------------------------------------
@@ -401,6 +432,9 @@ class Runner:
         reach = {}
         tok = self.case["ops"][at] if at < len(self.case["ops"]) else "?"
         for j, tr in enumerate(self.trees):
+            if tr is None:  # dropped: the digest of its last dump (the model's trees are values and stay)
+                digs.append(self.last_digs[j])
+                continue
             out = []
             stack = [(tr.root, 0)]
             visited = 0
@@ -437,8 +471,9 @@ class Runner:
             if j == h:
                 mine = line
             digs.append(poly_hash(f"{line}#{len(tr)}#{'F' if tr._immutable else 'M'}"))
+        self.last_digs = list(digs)
         for sn, (cr, trees) in reach.items():
-            if 0 <= cr < len(self.trees) and not self.trees[cr]._immutable and trees != {cr}:
+            if 0 <= cr < len(self.trees) and self.trees[cr] is not None and not self.trees[cr]._immutable and trees != {cr}:
                 self.fail("C19/cow/owned-node-shared", f"op {at} {tok}: node #{sn} is owned by the mutable tree {cr} but reachable from trees {sorted(trees)}", at)
         if mutating and new_nodes > 3 * (self.height_before + 1) + 2:
             self.fail("C19/cow/copies-not-minimal", f"op {at} {tok}: {new_nodes} new nodes for a tree of height {self.height_before}", at)
@@ -480,6 +515,28 @@ class Runner:
             return "!"
         T = self.trees
         sel = (at * 7 + sum(a)) % 3  # which public API spelling is used (deterministic)
+        if op == "Z":
+            # the program drops its last reference to tree h; from here on the tree is observed through the strings and
+            # digests taken so far, its address and those of its cursors are free for re-use
+            if len(a) != 1 or a[0] >= len(T) or T[a[0]] is None:
+                return "!"
+            h = a[0]
+            for cu in self.curs:
+                if cu[0] == h and cu[3]:
+                    if hasattr(cu[1], "close"):
+                        cu[1].close()
+                    else:
+                        cu[1].__exit__(None, None, None)
+                    cu[3] = False
+                if cu[0] == h:
+                    cu[1] = None
+            self.lines[h] = tree_line(T[h])
+            self.id_dump(h, at, mutating=False)  # last reading of its nodes and digest (it may have been frozen since the last one)
+            T[h] = None
+            gc.collect()
+            return "ok"
+        if op in TREE_OPS and a and a[0] < len(T) and T[a[0]] is None:
+            return "!"
         if op in ("I", "D", "X") and len(a) == {"I": 3, "D": 2, "X": 3}[op]:
             h = a[0]
             if h >= len(T):
@@ -760,6 +817,7 @@ class Runner:
                 return "VE"
             if not T[h]._immutable:
                 self.fail("C19/clone/accepted-mutable", f"op {at} {tok}: clone of a mutable tree was accepted", at)
+            self.note_creator(c, at)
             T.append(c)
             self.in_order_of.append(bool(io))
             self.creators[id(c.creator)] = len(T) - 1
@@ -862,6 +920,7 @@ class Runner:
                 self.fail(f"C19/constructor/exception:{type(e).__name__}", f"t={self.t}: {type(e).__name__} instead of ValueError", 0)
                 return "err " + type(e).__name__
         T0 = self.new_tree(None, self.io)
+        self.note_creator(T0, 0)
         self.trees.append(T0)
         self.in_order_of.append(self.io)
         self.creators[id(T0.creator)] = 0
@@ -879,14 +938,16 @@ class Runner:
                     self.fail("C19/hang", f"op {at} {tok}: no termination within the time limit", at)
                     self.tokens.append("HANG")
                     break
-                except (KeyboardInterrupt, SystemExit):
+                except (KeyboardInterrupt, SystemExit, Stalled):
                     raise
                 except BaseException as e:  # foreign exception out of the implementation
                     self.fail(f"C19/{tok[:1]}/exception:{type(e).__name__}", f"op {at} {tok}: {type(e).__name__}: {e}", at)
                     r = "EXC:" + type(e).__name__
                     # re-read everything so that later isolation checks compare against the present state
                     try:
-                        self.lines = [tree_line(t) for t in self.trees]
+                        self.lines = [self.lines[j] if t is None else tree_line(t) for j, t in enumerate(self.trees)]
+                    except Stalled:
+                        raise
                     except BaseException:
                         pass
                 self.tokens.append(r)
@@ -906,7 +967,8 @@ def collapse_always() -> int:
     return 1
 
 
-COW_OPS = "IDXGCFOR"
+COW_OPS = "IDXGCFORZ"
+TREE_OPS = ("I", "D", "X", "O", "R", "G", "g", "L", "T", "K", "V", "S", "M", "C", "F", "c")
 
 
 def collapse_on_error() -> int:
@@ -1014,6 +1076,8 @@ def eval_case(ctx: Ctx, case: dict, minimize=True):
             done.add(sig)
             try:
                 small = minimise(case, sig)
+            except (KeyboardInterrupt, SystemExit, Stalled):
+                raise
             except BaseException:
                 small = case
             r2, _ = run_impl(small)
@@ -1792,7 +1856,7 @@ def run_hostile(case):
                 if not tr._immutable:
                     fail("C19/frozen/spurious", f"op {at} {tok}: Immutable on a mutable tree", at)
                 check(h, at, tok)
-            except (KeyboardInterrupt, SystemExit):
+            except (KeyboardInterrupt, SystemExit, Stalled):
                 raise
             except BaseException as e:
                 fail(f"C19/{op}/exception:{type(e).__name__}", f"op {at} {tok}: {type(e).__name__}: {e}", at)
@@ -1845,6 +1909,85 @@ def gen_hostile(rng):
             ops.append("n")
     ops.append(f"E,{rng.below(ntrees)}")
     return {"kind": "hostile", "t": t, "io": rng.below(2), "set": is_set, "ops": ops}
+
+
+def gen_generations(rng):
+    """Object lifetime as a dimension of the history: chains of generations base -> a -> b (each frozen, then cloned),
+    the intermediate generation `a` is *dropped* (`Z`: last reference deleted, gc.collect()) while `b`, which shares the
+    nodes `a` created, stays observed; then several short-lived clones of the surviving frozen trees are made (one of
+    them is likely to be allocated where the dropped tree lived), mutated along the keys `a` touched, and dropped again."""
+    t = rng.choice([3, 3, 4])
+    io = rng.below(2)
+    is_set = rng.chance(1, 4)
+    n = rng.choice([8, 14, 25, 40])
+    ops = []
+    vid = [0]
+
+    def ins(h, k):
+        vid[0] += 1
+        ops.append(f"I,{h},{k},{0 if is_set else vid[0]}")
+
+    for k in key_order(rng, list(range(0, 2 * n, 2)), rng.choice(["asc", "rand", "desc"])):
+        ins(0, k)
+    ops.append("F,0")
+    ntrees = 1
+    frozen_live = [0]
+    for _ in range(rng.range(2, 5)):
+        if ntrees > 13:
+            break
+        g = rng.choice(frozen_live)
+        # generation a: rewrites a few entries, is frozen
+        ops.append(f"C,{g},{rng.below(2)}")
+        a = ntrees
+        ntrees += 1
+        touched = rng.shuffle(list(range(0, 2 * n + 2)))[: rng.range(2, max(3, n // 2))]
+        for k in touched:
+            if rng.chance(1, 5):
+                ops.append(f"D,{a},{k}")
+            else:
+                ins(a, k)
+        if rng.chance(1, 4):
+            ops += [f"c,{a}", f"n,{rng.below(3)}"]  # a cursor that dies with its tree (closed ids answer `!` on both sides)
+        ops.append(f"F,{a}")
+        # generation b: a clone of a, frozen with few or no changes
+        ops.append(f"C,{a},{rng.below(2)}")
+        b = ntrees
+        ntrees += 1
+        for k in touched[: rng.choice([0, 0, 1, 2])]:
+            ins(b, k)
+        ops.append(f"F,{b}")
+        frozen_live.append(b)
+        if rng.chance(1, 3):
+            ops.append(f"T,{b}")
+        ops.append(f"Z,{a}")
+        # short-lived clones of the survivors, mutated along what a touched
+        for _ in range(rng.range(1, 4)):
+            if ntrees > 13:
+                break
+            src = b if rng.chance(2, 3) else rng.choice(frozen_live)
+            ops.append(f"C,{src},{rng.below(2)}")
+            c = ntrees
+            ntrees += 1
+            for k in rng.shuffle(touched)[: rng.range(1, len(touched))]:
+                m = rng.below(5)
+                if m == 0:
+                    ops.append(f"D,{c},{k}")
+                elif m == 1:
+                    ops.append(f"R,{c},{k}")
+                else:
+                    ins(c, k)
+            if rng.chance(1, 2):
+                ops.append(f"T,{b}")
+            if rng.chance(1, 2):
+                ops.append(f"Z,{c}")
+            elif rng.chance(1, 2):
+                ops.append(f"F,{c}")
+                frozen_live.append(c)
+        if rng.chance(1, 6):
+            ops.append(f"G,{a},{rng.choice(touched)}")  # use of a dropped handle: `!` on both sides
+    for h in frozen_live:
+        ops.append(f"T,{h}")
+    return {"kind": "hist", "t": t, "io": io, "set": is_set, "ktype": rng.choice(KTYPES), "ops": ops}
 
 
 def gen_malformed(rng):
@@ -1917,6 +2060,12 @@ def generate(ctx: Ctx, scale: float, rng):
         r = eval_case(ctx, case)
         ctx.count("default-ctor")
         ctx.case(("defaults", case["io"], case["set"], tuple(case["ops"])), nontrivial=True, sample=_sample(case))
+    for i in range(max(1, int(80 * scale))):
+        case = gen_generations(rng)
+        r = eval_case(ctx, case)
+        ctx.count("generations")
+        ctx.case(("gens", case["t"], case["io"], case["set"], case["ktype"], tuple(case["ops"])),
+                 nontrivial=bool(r and r.mutations), sample=_sample(case))
     for i in range(max(1, int(150 * scale))):
         case = gen_hostile(rng)
         eval_case(ctx, case)
